@@ -102,6 +102,9 @@ def reader_slices(func, var="line"):
 
 
 def run(ctx):
+    # converting to RDKit must leave the caller's structure as it was (kekulization works on a copy of the bond list)
+    from ..lints import caller_arguments_untouched
+    caller_arguments_untouched(ctx, RDK, "R3.caller-arguments-untouched", {}, 2)
     s = ctx.src(CTAB)
     wr = s.func("_write_structure_to_ctab_v2000")
     rd = s.func("_read_structure_from_ctab_v2000")
@@ -258,29 +261,51 @@ def run(ctx):
         ctx.ob("R2.v2000-behind-guard", CTAB, "write_structure_to_ctab", f"{ast.unparse(c)[:60]} @{c.lineno - wf.lineno}", g,
                "the V2000 writer is reachable without a passed _is_v2000_compatible test (a refusing guard must raise)", c.lineno)
     # coordinates
+    # the refusing guard over the coordinates: either a bound on the number of integer digits (sign counted:
+    # number_of_integer_digits) or a bound on the magnitude (np.abs(..) >= B)
+    from ..layout import magnitude_field_width
     K = None
+    B = None
+    measure = "number_of_integer_digits"
     for st in stmts(wr):
-        if isinstance(st, ast.If) and any(isinstance(b, ast.Raise) for b in st.body) and "n_coord_digits" in ast.unparse(st.test):
+        if not (isinstance(st, ast.If) and st.body and isinstance(st.body[-1], ast.Raise)):
+            continue
+        if "n_coord_digits" in ast.unparse(st.test) and isinstance(st.test, ast.Compare):
             K = const_eval(st.test.comparators[0]) - (0 if isinstance(st.test.ops[0], ast.Gt) else 1)
-    ctx.need(K is not None, "coordinate digit guard of the V2000 writer")
+        else:
+            for c in ast.walk(st.test):
+                if isinstance(c, ast.Compare) and len(c.ops) == 1 and isinstance(c.ops[0], (ast.Gt, ast.GtE)) \
+                        and isinstance(c.left, ast.Call) and call_name(c.left) in ("np.abs", "np.absolute", "abs") \
+                        and "coord" in ast.unparse(c.left):
+                    try:
+                        B = float(const_eval(c.comparators[0]))
+                        measure = call_name(c.left)
+                    except Exception:
+                        pass
+    ctx.need(K is not None or B is not None, "coordinate guard of the V2000 writer (digits or magnitude)")
     cspec = [k[2] for o, w, k in atom_fields if k[0] == "val" and "coord" in k[1]][0]
-    mw, wit = float_field_width(K, cspec["prec"], "float32", False)
+    if K is not None:
+        mw, wit = float_field_width(K, cspec["prec"], "float32", False)
+        what = f"guard digits <= {K}"
+    else:
+        mw, wit = magnitude_field_width(B, cspec["prec"], "float32")
+        what = f"guard |v| < {B:g}"
     ctx.ob("R2.coordinate-width", CTAB, "_write_structure_to_ctab_v2000",
-           f"guard digits <= {K}, format {cspec['width']}.{cspec['prec']}f, float32 -> max width {mw}",
+           f"{what}, format {cspec['width']}.{cspec['prec']}f, float32 -> max width {mw}",
            mw <= cspec["width"], f"coordinates passing the guard can need {mw} characters: {wit}", wr.lineno)
-    # the loop whose body measures the digits: it enumerates three axes and measures column <index> of the coordinates
+    # the loop whose body measures the coordinates: it enumerates three axes and measures column <index> of the coordinates
     axes_ok = False
     for st in stmts(wr):
-        if isinstance(st, ast.For) and any(isinstance(c, ast.Call) and call_name(c) == "number_of_integer_digits" for c in ast.walk(st)):
+        if isinstance(st, ast.For) and any(isinstance(c, ast.Call) and call_name(c) == measure for c in ast.walk(st)):
             it = st.iter
             if isinstance(it, ast.Call) and call_name(it) == "enumerate" and it.args and isinstance(it.args[0], (ast.List, ast.Tuple)) \
                     and len(it.args[0].elts) == 3 and isinstance(st.target, ast.Tuple) and isinstance(st.target.elts[0], ast.Name):
                 idx = st.target.elts[0].id
-                axes_ok = any(isinstance(c, ast.Call) and call_name(c) == "number_of_integer_digits" and len(c.args) == 1
+                axes_ok = any(isinstance(c, ast.Call) and call_name(c) == measure and len(c.args) == 1
                               and same_expr(c.args[0], f"atoms.coord[:, {idx}]") for c in ast.walk(st))
             elif isinstance(it, ast.Call) and call_name(it) == "range" and len(it.args) == 1 and isinstance(it.args[0], ast.Constant) \
                     and it.args[0].value == 3 and isinstance(st.target, ast.Name):
-                axes_ok = any(isinstance(c, ast.Call) and call_name(c) == "number_of_integer_digits" and len(c.args) == 1
+                axes_ok = any(isinstance(c, ast.Call) and call_name(c) == measure and len(c.args) == 1
                               and same_expr(c.args[0], f"atoms.coord[:, {st.target.id}]") for c in ast.walk(st))
     ctx.ob("R2.coordinate-axes", CTAB, "_write_structure_to_ctab_v2000", "x, y, z all guarded", axes_ok,
            "the digit guard must cover all three axes", wr.lineno)
@@ -469,6 +494,37 @@ def run(ctx):
            regs.get("number", "").startswith("^DT(") and regs.get("name", "").startswith("^<(") and regs.get("name", "").endswith(")>$")
            and regs.get("registry_external", "").startswith("^\\(") and regs.get("registry_internal") == "^(\\d+)$",
            "component regexes must mirror the serialised forms", kcls.lineno)
+    # the name a Key accepts (validator _NAME_INPUT_REGEX) and the name the reader recognises between '<' and '>' are the same
+    # language: compared on the regex syntax trees (capture groups dropped, character classes as sets)
+    import re._parser as _rp
+
+    def rx_canon(p_):
+        def conv(items):
+            out = []
+            for op, av in items:
+                opn = str(op)
+                if opn == "SUBPATTERN":
+                    out.extend(conv(av[3]))
+                elif opn == "IN":
+                    out.append(("IN", tuple(sorted(repr(x) for x in av))))
+                elif opn in ("MAX_REPEAT", "MIN_REPEAT"):
+                    out.append((opn, int(av[0]), str(av[1]), tuple(conv(av[2]))))
+                elif opn == "BRANCH":
+                    out.append(("BRANCH", tuple(sorted(repr(tuple(conv(b))) for b in av[1]))))
+                else:
+                    out.append((opn, repr(av)))
+            return out
+        return tuple(conv(_rp.parse(p_)))
+    name_in = None
+    for st in kcls.body:
+        if isinstance(st, ast.Assign) and isinstance(st.targets[0], ast.Name) and st.targets[0].id == "_NAME_INPUT_REGEX" \
+                and isinstance(st.value, ast.Call) and st.value.args and isinstance(st.value.args[0], ast.Constant):
+            name_in = st.value.args[0].value
+    ctx.need(name_in is not None and name_in.startswith("^") and name_in.endswith("$") and "name" in regs, "name validator regex of Metadata.Key")
+    ctx.ob("R5.key-name-language", SDF, "Metadata.Key._COMPONENT_REGEX", f"name: {regs['name']}  vs validator {name_in}",
+           rx_canon(regs["name"]) == rx_canon("^<" + name_in[1:-1] + ">$"),
+           "every name the Key constructor accepts must be recognised by the reader between '<' and '>' (and nothing else): "
+           "otherwise a key that was written cannot be read back", kcls.lineno)
     # ctab end marker, header line count
     gs = sd.func("_get_ctab_stop")
     ctx.ob("R5.ctab-end", SDF, "_get_ctab_stop", "first 'M  END' after the header lines",
@@ -516,6 +572,12 @@ def run(ctx):
 
 
 MUTANTS = [
+    Mutant("key-name-two-characters", SDF, '            "name": re.compile(r"^<([a-zA-Z0-9][\\w.]*)>$"),\n', '            "name": re.compile(r"^<([a-zA-Z0-9][\\w.]+)>$"),\n',
+           "R5.key-name-language"),
+    Mutant("key-name-class-reordered", SDF, '            "name": re.compile(r"^<([a-zA-Z0-9][\\w.]*)>$"),\n', '            "name": re.compile(r"^<([0-9A-Za-z][.\\w]*)>$"),\n',
+           "R5.key-name-language", kind="silent"),
+    Mutant("kekulize-in-place", RDK, "        bonds = atoms.bonds.copy()\n        bonds.remove_aromaticity()\n", "        bonds = atoms.bonds\n        bonds.remove_aromaticity()\n",
+           "R3.caller-arguments-untouched", "to_mol"),
     Mutant("record-header-not-cached", SDF, "                self._header = Header.deserialize(self._header)", "                return Header.deserialize(self._header)", "R5.lazy-parse-stored"),
     Mutant("v2000-coords-by-split", CTAB, "        atoms.coord[i, 0] = float(line[0:10])", "        atoms.coord[i, 0] = float(line[0:30].split()[0])", "R1.atom-columns-read"),
     Mutant("element-field-width", CTAB, 'f" {atoms.element[i].capitalize():3}"', 'f" {atoms.element[i].capitalize():4}"', "R1.atom-columns"),
